@@ -117,40 +117,34 @@ func (p *Prog) firstPartyRef(rf CallRef) bool {
 func c10Size(p *Prog, r *Report, e *engine) {
 	hf := newFA(p, r, e.handleFile)
 	disp := e.dispatchCall
-	// source: fileSize(wc.fileAPI)
-	var fsz *ssa.Call
-	forEachInstr(hf.fn, func(_ *ssa.BasicBlock, _ int, in ssa.Instruction) {
-		if c, ok := in.(*ssa.Call); ok && c.Call.StaticCallee() == e.fileSize {
-			fsz = c
-		}
-	})
+	// source: fileSize(wc.fileAPI), or its body written out: wc.fileAPI.Stat() then info.Size()
+	fsz, size, onAPI := e.sizeSource()
 	if fsz == nil {
 		r.Fail("D2-size", hf.key+":source", p.Pos(disp.Pos()), "the size used for the limit is not obtained with fileSize(wc.fileAPI) (the lazy, symlink-following Stat of the current path): e.g. a DirEntry's Info() reports the size of a symlink, not of its target")
 		return
 	}
-	r.Check(loadsField(stripIface(fsz.Call.Args[0]), "walkContext", "fileAPI"), "D2-size", hf.key+":source", p.Pos(fsz.Pos()), "fileSize(wc.fileAPI)", "fileSize is not asked about the walk's lazy file API (current path)")
-	size := func(v ssa.Value) bool {
-		ex, ok := v.(*ssa.Extract)
-		return ok && ex.Tuple == ssa.Value(fsz) && ex.Index == 0
-	}
-	// fileSize body: file.Stat() then info.Size()
-	fb := e.fileSize
-	okBody := false
-	forEachInstr(fb, func(_ *ssa.BasicBlock, _ int, in ssa.Instruction) {
-		if c, ok := in.(*ssa.Call); ok && c.Call.IsInvoke() && c.Call.Method.Name() == "Size" {
-			if derivesFrom(c.Call.Value, func(v ssa.Value) bool {
-				cc, _ := callValue(v)
-				return cc != nil && cc.Call.IsInvoke() && cc.Call.Method.Name() == "Stat" && cc.Call.Value == fb.Params[0]
-			}, deriveOpts{}) {
-				for _, ret := range returnsOf(fb) {
-					if retVal(ret, 0) == ssa.Value(c) {
-						okBody = true
+	r.Check(onAPI, "D2-size", hf.key+":source", p.Pos(fsz.Pos()), "fileSize(wc.fileAPI)", "fileSize is not asked about the walk's lazy file API (current path)")
+	if fb := e.fileSize; fb != nil {
+		// fileSize body: file.Stat() then info.Size()
+		okBody := false
+		forEachInstr(fb, func(_ *ssa.BasicBlock, _ int, in ssa.Instruction) {
+			if c, ok := in.(*ssa.Call); ok && c.Call.IsInvoke() && c.Call.Method.Name() == "Size" {
+				if derivesFrom(c.Call.Value, func(v ssa.Value) bool {
+					cc, _ := callValue(v)
+					return cc != nil && cc.Call.IsInvoke() && cc.Call.Method.Name() == "Stat" && cc.Call.Value == fb.Params[0]
+				}, deriveOpts{}) {
+					for _, ret := range returnsOf(fb) {
+						if retVal(ret, 0) == ssa.Value(c) {
+							okBody = true
+						}
 					}
 				}
 			}
-		}
-	})
-	r.Check(okBody, "D2-size", fnKey(fb)+":body", p.Pos(fb.Pos()), "returns file.Stat().Size()", "fileSize no longer returns the Size() of the file's Stat()")
+		})
+		r.Check(okBody, "D2-size", fnKey(fb)+":body", p.Pos(fb.Pos()), "returns file.Stat().Size()", "fileSize no longer returns the Size() of the file's Stat()")
+	} else {
+		r.OK("D2-size", "extractor/filesystem.fileSize:body", p.Pos(fsz.Pos()), "written out in the walk callback: wc.fileAPI.Stat() then Size()")
+	}
 	// comparison: size > int64(maxFileSize)
 	tooBig := condCmp(size, isFieldLoad("walkContext", "maxFileSize"), token.GTR)
 	enabled := condCmp(isFieldLoad("walkContext", "maxFileSize"), isConstInt(0), token.GTR)
@@ -254,7 +248,7 @@ func c10Cancel(p *Prog, r *Report, e *engine) {
 			if !ok {
 				return
 			}
-			isWork := c == e.dispatchCall || (c.Call.IsInvoke() && (c.Call.Method.Name() == "FileRequired" || c.Call.Method.Name() == "Type")) || c.Call.StaticCallee() == e.shouldSkipDir || c.Call.StaticCallee() == e.fileSize
+			isWork := c == e.dispatchCall || (c.Call.IsInvoke() && (c.Call.Method.Name() == "FileRequired" || c.Call.Method.Name() == "Type")) || c.Call.StaticCallee() == e.shouldSkipDir || (e.fileSize != nil && c.Call.StaticCallee() == e.fileSize) || (c.Call.IsInvoke() && c.Call.Method.Name() == "Stat") || (e.lazyStat != nil && c.Call.StaticCallee() == e.lazyStat)
 			if !isWork {
 				return
 			}
